@@ -35,3 +35,40 @@ struct use_stream {
 };
 }
 #endif
+#ifndef VERIF_DIAGREC_H
+#define VERIF_DIAGREC_H
+// recorder for write_state_diag_str: remembers the action line printed for one target term ("On <term> ...")
+namespace hv {
+enum { D_NONE = 0, D_SHIFT = 1, D_REDUCE = 2, D_SUCCESS = 3, D_SR_RED = 4, D_SR_SHIFT = 5, D_RR = 6 };
+struct diagrec {
+    const char* const* names = nullptr; unsigned nnames = 0, target = 0;
+    unsigned kind = D_NONE, arg = 0xffffffffu, nlines = 0;
+    bool after_on = false, mine = false, got_int = false;
+    template<std::size_t N> static unsigned cls(const char (&s)[N], bool& ends) {
+        ends = (N >= 2 && s[N - 2] == '\n');
+        if constexpr (N == 4) return 100;                                   // "On "
+        if constexpr (N == 11) return s[2] == 'h' ? D_SHIFT : s[2] == 'u' ? D_SUCCESS : D_NONE;   // " shift to " / " success \n"
+        if constexpr (N == 16) return D_REDUCE;                             // " reduce using ("
+        if constexpr (N == 30) return D_SR_RED;                             // " S/R CONFLICT, prefer reduce("
+        if constexpr (N == 41) return D_SR_SHIFT;                           // " S/R CONFLICT, prefer shift over reduce("
+        if constexpr (N == 33) return D_RR;                                 // " R/R CONFLICT - !!! FIX IT !!! \n"
+        return D_NONE;
+    }
+    template<typename T> diagrec& operator<<(T&& v) {
+        using U = std::remove_cv_t<std::remove_reference_t<T>>;
+        if constexpr (std::is_array_v<U>) {
+            bool ends = false; unsigned k = cls(v, ends);
+            if (k == 100) { after_on = true; mine = false; got_int = false; }
+            else if (k != D_NONE && mine && kind == D_NONE) { kind = k; nlines++; }
+            else if (k != D_NONE && mine) nlines++;
+            if (ends) { mine = false; after_on = false; }
+        } else if constexpr (std::is_same_v<U, const char*> || std::is_same_v<U, char*>) {
+            if (after_on) { after_on = false; unsigned t = 0xfffe; for (unsigned i = 0; i < nnames; ++i) if (names[i] == v) t = i; mine = (t == target); }
+        } else if constexpr (std::is_integral_v<U>) {
+            if (mine && kind != D_NONE && !got_int) { arg = (unsigned)v; got_int = true; }
+        }
+        return *this;
+    }
+};
+}
+#endif
